@@ -853,6 +853,7 @@ def check_csv_text(ctx, rng, idx, tmp, cases, text=None):
         impl, got = "(err)", None
     except Exception as e:  # noqa: BLE001
         impl, got = "escaped:" + type(e).__name__, None
+        ctx.oracle_fail("CSVHandler neither serves the file nor refuses it with OpenFileError", case, impl, "dataset or OpenFileError")
     canon = lambda recs: [[cell_sexp(c) for c in r] for r in recs]  # noqa: E731  (floats as bit patterns: nan == nan)
     # what the property demands of the handler: the csv module's records, the titles under their DAP spelling; a header
     # with a number for a title or with two titles of one name cannot be a sequence's columns: refused
